@@ -116,7 +116,10 @@ impl MaybeTlsTcpStream {
 }
 impl RtrStream {
     // socket options; may fail (the kernel rejects the keepalive time)
-    #[verifier::external_body] fn set_keepalive(sock: &TcpStream, duration: Duration) -> Result<(), IoError> { unimplemented!() }
+    #[verifier::external_body]
+    fn set_keepalive(sock: &TcpStream, duration: Duration, Tracked(clk): Tracked<&mut Clock>) -> (r: Result<(), IoError>)
+        ensures final(clk).updates == old(clk).updates,
+    { unimplemented!() }
 }
 // Monotone ghost facts: the open-connection counter of this metrics record has been
 // incremented / decremented by this call (AtomicUsize fetch_add / fetch_sub).
@@ -172,3 +175,7 @@ pub assume_specification<T, E> [Result::<T, E>::unwrap_or] (a: Result<T, E>, def
 pub assume_specification<T, E, F: FnOnce(E) -> T> [Result::<T, E>::unwrap_or_else] (a: Result<T, E>, f: F) -> (r: T)
     requires a is Err ==> f.requires((a->Err_0,)),
     ensures a is Ok ==> r == a->Ok_0, a is Err ==> f.ensures((a->Err_0,), r);
+
+// Ghost clock (rewrite R20) of the connection-counting functions: `updates` counts the calls of
+// RtrClientMetrics::update made by the current call.
+pub tracked struct Clock { pub ghost updates: nat }
